@@ -6,6 +6,7 @@ RUNNERS = pubrunner.RUNNERS
 HARNESS_BUILD_FLAGS = pubrunner.HARNESS_BUILD_FLAGS
 
 SPEC = {
+    "coq_targets": ["Props/C10Lock.vo"],
     "runners": [
         {"kind": "pubscript", "name": "scripted", "module": "CorrC10", "corr": "Run/CorrPub.v (Model/Pub.v vs /repo/publisher, scripted schedules, monitor mon10)",
          "rule": "scripted: each case = one script in which Subscriber.Close and/or Publication.Close (once, twice, both) is injected at a position of a base script, or is called from inside an OnTimeout / OnFiltered callback (of the own subscriber, of the publication; must return within 3s), of Subscribe / Publish / non-blocking receive / Advance stimuli, run in a child process (a panic is an observation: exit status + stderr); after every stimulus the harness waits for quiescence; the trace (close = LoadAndDelete + wake-up, dropped deliveries, channel closed, receive outcomes value/nothing/closed, channel lengths, live delivery goroutines) is replayed through the model by Coq; the C10 monitor: no panic, no call stuck for 3s, 'closed' seen only on a closed subscriber, nothing received after 'closed', subscribers that were not closed still receive every accepted message exactly once, no delivery goroutine left. distinct = by (family, stimuli); non-trivial = a close happened while deliveries to that subscriber were pending or messages were buffered."},
